@@ -214,22 +214,24 @@ Lemma mapM_cons {A B} (f : A -> bres B) x l :
 Proof. reflexivity. Qed.
 
 Lemma build_chars : forall v pre rest,
-  mapM (build_string_char (pre ++ encs v ++ rest)) (char_pairs v (slen pre)) = BOk v.
+  decode_chars (pre ++ encs v ++ rest) (char_pairs v (slen pre)) None = DOk v.
 Proof.
   induction v as [|c v IH]; intros pre rest; [reflexivity|].
   cbn [char_pairs encs flat_map]. fold (encs v).
   set (inp := pre ++ (enc c ++ encs v) ++ rest).
   assert (Hinp : inp = pre ++ enc c ++ (encs v ++ rest)) by (unfold inp; rewrite <- app_assoc; reflexivity).
   assert (Hstr : substr inp (slen pre) (slen pre + slen (enc c)) = enc c) by (rewrite Hinp; apply substr_mid).
-  assert (Hchar : build_string_char inp (Pair R_StringCharacter (slen pre) (slen pre + slen (enc c))
-                                         [Pair (kind c) (slen pre) (slen pre + slen (enc c)) []]) = BOk c).
-  { unfold build_string_char, only_child. cbn [pair_kids pair_rule].
-    unfold as_str. cbn [pair_start pair_end]. rewrite Hstr.
-    unfold kind, enc. destruct (esc_of_cases c) as [[e [He [_ [_ Hesc]]]]|[He _]]; rewrite He; [exact Hesc|reflexivity]. }
-  assert (Hrest : mapM (build_string_char inp) (char_pairs v (slen pre + slen (enc c))) = BOk v).
+  assert (Hrest : decode_chars inp (char_pairs v (slen pre + slen (enc c))) None = DOk v).
   { rewrite <- slen_app. unfold inp. replace (pre ++ (enc c ++ encs v) ++ rest) with ((pre ++ enc c) ++ encs v ++ rest)
       by (rewrite <- !app_assoc; reflexivity). apply IH. }
-  rewrite mapM_cons, Hchar, Hrest. reflexivity.
+  cbn [decode_chars pair_kids].
+  assert (Heu : escaped_unicode inp (Pair (kind c) (slen pre) (slen pre + slen (enc c)) []) = BOk None).
+  { unfold escaped_unicode, kind. cbn [pair_rule]. destruct (esc_of c); reflexivity. }
+  rewrite Heu.
+  assert (Hplain : plain_char inp (Pair (kind c) (slen pre) (slen pre + slen (enc c)) []) = BOk c).
+  { unfold plain_char. cbn [pair_rule]. unfold as_str. cbn [pair_start pair_end]. rewrite Hstr.
+    unfold kind, enc. destruct (esc_of_cases c) as [[e [He [_ [_ Hesc]]]]|[He _]]; rewrite He; [exact Hesc|reflexivity]. }
+  rewrite Hplain, Hrest. reflexivity.
 Qed.
 
 (** string_lex: the quoted rendering of any non-empty value is one StringValue token, and the builder
@@ -247,7 +249,7 @@ Proof.
   assert (Hinp : inp = (pre ++ [34]) ++ encs val ++ (34 :: post)).
   { unfold inp, quote. rewrite <- !app_assoc. cbn [app]. rewrite <- app_assoc. reflexivity. }
   assert (Hi : i + 1 = slen (pre ++ [34])) by (rewrite slen_app; reflexivity).
-  rewrite Hi, Hinp. rewrite build_chars. cbn [bbind]. rewrite <- Hinp. unfold to_pos. cbn [pair_start]. reflexivity.
+  unfold decode_string_characters. cbn [pair_kids]. rewrite Hi, Hinp. rewrite build_chars. rewrite <- Hinp. unfold to_pos. cbn [pair_start]. reflexivity.
 Qed.
 
 Definition not_quote_next (post : str) : Prop := match post with d :: _ => N.eqb 34 d = false | [] => True end.
